@@ -34,7 +34,7 @@ PORTS = [None, "default", "8080", "0080", "8443", "65535", "1"]
 PATHS = ["", "/", "//x//y", "/.//x", "/a/..//x", "/a/b", "/a/./b/../c", "/../x", "/a b", "/%41%2fz", "/été", "/a//b/", "/a;p=1", "/a\\b", "/%zz", "/.", "/a/..", "/~u/+x", "/a%20b/%C3%A9"]
 QUERIES = [None, "", "q=1&r=2", "a b", "x=%26y", "é", "a#b".split("#")[0], "q=a/b?c", "%zz"]
 FRAGS = [None, "", "frag", "f/g?h", "a b"]
-ROUTES = ["direct", "forward", "tunnel"]
+ROUTES = ["direct", "forward", "tunnel", "forward-tls", "tunnel-tls"]
 
 HOST_HDR_RE = re.compile(r"^(\[[0-9A-Fa-f:.]+(%(25)?[A-Za-z0-9._~-]+)?\]|[A-Za-z0-9._~!$&'()*+,;=%-]+)(:[0-9]+)?$")
 TARGET_OK = refurl.QUERY_OK
@@ -162,7 +162,9 @@ def run_one(url: str, route: str, w, net, pm, exp, fails, sig, brief):
         fails.append(Failure("wire", {**sig, "what": "request-count"}, f"{len(reqs)} requests reached a server: {brief()}"))
         return None
     e = reqs[0]
-    proxy_addr = ("proxy.test", 3128)
+    proxy_addr = ("sproxy.test", 3129) if route.endswith("-tls") else ("proxy.test", 3128)
+    tls_proxy = route.endswith("-tls")
+    route = route[:-4] if tls_proxy else route
     # ---- who was dialled
     want_dial = exp["dial"] if route == "direct" else proxy_addr
     for d in dials:
@@ -239,9 +241,9 @@ def run_case(case) -> list[Failure]:
         raise core.InvalidCase
     route = case["route"]
     scheme = c["scheme"].lower()
-    if route == "tunnel" and scheme != "https":
+    if route.startswith("tunnel") and scheme != "https":
         raise core.InvalidCase
-    if route == "forward" and scheme != "http":
+    if route.startswith("forward") and scheme != "http":
         raise core.InvalidCase
     url = build_url(c)
     v = variant(c)
@@ -255,7 +257,9 @@ def run_case(case) -> list[Failure]:
     ident = nulltls.Identity([("IP Address" if exp["is_v6"] or re.fullmatch(r"[0-9.]+", exp["sni"]) else "DNS", exp["sni"])], label="origin") if scheme == "https" else None
     w.add_origin(scheme, exp["dial"][0], exp["dial"][1], identity=ident)
     w.add_proxy("http", "proxy.test", 3128)
+    w.add_proxy("https", "sproxy.test", 3129)
     ctx = nulltls.NullTLSContext("c15")
+    pctx = nulltls.NullTLSContext("c15-proxy")
 
     def brief():
         return f"url={url!r} variant={url2!r} route={route}"
@@ -263,7 +267,12 @@ def run_case(case) -> list[Failure]:
     if (exp2["dial"], exp2["sni"], exp2["port"], exp2["path"], exp2["query"]) != (exp["dial"], exp["sni"], exp["port"], exp["path"], exp["query"]):
         raise core.HarnessError(f"variant is not equivalent under the reference reading: {url!r} vs {url2!r}")
     with fakenet.Net(w) as net:
-        pm = urllib3.PoolManager(ssl_context=ctx) if route == "direct" else urllib3.ProxyManager("http://proxy.test:3128", ssl_context=ctx)
+        if route == "direct":
+            pm = urllib3.PoolManager(ssl_context=ctx)
+        elif route.endswith("-tls"):
+            pm = urllib3.ProxyManager("https://sproxy.test:3129", ssl_context=ctx, proxy_ssl_context=pctx)
+        else:
+            pm = urllib3.ProxyManager("http://proxy.test:3128", ssl_context=ctx)
         try:
             e1 = run_one(url, route, w, net, pm, exp, fails, sig, brief)
             if e1 is not None and not fails:
@@ -324,7 +333,7 @@ def _mk(scheme, ui, host, port, path, query, frag, route):
 
 
 def routes_for(scheme):
-    return ("direct", "forward") if scheme.lower() == "http" else ("direct", "tunnel")
+    return ("direct", "forward", "forward-tls") if scheme.lower() == "http" else ("direct", "tunnel", "tunnel-tls")
 
 
 def enum_cases(tier):
@@ -339,7 +348,7 @@ def enum_cases(tier):
         if tier == "quick" and k % 3:
             continue
         scheme = SCHEMES[k % 2]
-        yield _mk(scheme, ui, HOSTS[k % len(HOSTS)], PORTS[k % len(PORTS)], path, query, frag, routes_for(scheme)[k % 2])
+        yield _mk(scheme, ui, HOSTS[k % len(HOSTS)], PORTS[k % len(PORTS)], path, query, frag, routes_for(scheme)[k % 3])
 
 
 def _hyp():
@@ -350,7 +359,7 @@ def _hyp():
 
     return st.builds(mk, st.sampled_from(SCHEMES), st.sampled_from(USERINFO), st.sampled_from(HOSTS), st.sampled_from(PORTS),
                      st.one_of(st.sampled_from(PATHS), st.lists(st.sampled_from(["a", "b c", "..", ".", "", "%41", "é", "x;y", "a\\b", "~", "%zz"]), min_size=1, max_size=5).map(lambda l: "/" + "/".join(l))),
-                     st.sampled_from(QUERIES), st.sampled_from(FRAGS), st.integers(0, 1))
+                     st.sampled_from(QUERIES), st.sampled_from(FRAGS), st.integers(0, 2))
 
 
 def shards(tier, seed):
